@@ -539,6 +539,7 @@ pub struct IoSnap {
     pub consumed: usize,
     pub inbox_len: usize,
     pub shutdown_calls: u32,
+    pub shutdown_first_stamp: Option<u64>,
     pub shutdown_done: bool,
     pub dropped: bool,
     pub read_eof: bool,
@@ -1033,6 +1034,7 @@ async fn drive(sc: &Scenario, chooser: Rc<RefCell<Chooser>>) -> Exec {
             consumed: i.rpos,
             inbox_len: i.inbox.len(),
             shutdown_calls: i.shutdown_calls,
+            shutdown_first_stamp: i.shutdown_first_stamp,
             shutdown_done: i.shutdown_done,
             dropped: i.dropped,
             read_eof: i.read_eof,
